@@ -14,10 +14,14 @@ from . import arrayhist as AH
 from . import raggedhist as RH
 from .arrayhist import Viol
 
-NUMTYPE_BAD = ['Int32', 'INT8', 'int33', 'float', 'int', 'f8', 'i8', '<f8', 'double', 'd', 'i4', 'f4', 'u1', 'single', 'float128', 'complex32', 'bool', 'str', '', 'int 32', 'uint', '<i4',
+# "unknown" tokens: none of them is an alias under which NumPy itself (or a case-insensitive reader) would find one of
+# the documented values - a reader that resolves 'f8', '<i4', 'BIG' or order 'A' reads the right data and is not what
+# C18 forbids; tokens that name a type outside the 13 supported ones stay
+NUMTYPE_BAD = ['int33', 'int128', 'float128', 'float8', 'complex32', 'bool', 'str', 'object', 'datetime64', '', 'int 32',
+               'integer32', 'real', 'quad', 'bfloat16', 'number', 'numeric',
                5, None, ['int32'], True, {'t': 'int8'}, 1.5]
-BYTEORDER_BAD = ['Little', 'BIG', 'litle', 'le', '<', '>', 'native', '=', '', 'little ', 0, None, ['little'], True]
-ARRAYORDER_BAD = ['c', 'f', 'K', 'A', 'CF', '', 'C ', 'row', 0, None, ['C'], True]
+BYTEORDER_BAD = ['litle', 'le', 'bogus', 'sideways', 'network', 'middle', 'swapped', '', 0, None, ['little'], True]
+ARRAYORDER_BAD = ['CF', '', 'row', 'Z', 'column', 'X', 'order', 0, None, ['C'], True]
 SHAPE_BAD = ['scalar', 'string', 'floats', 'float_first', 'negative', 'neg_all', 'nested', 'null', 'dict', 'str_items', 'none_item']
 KEYS_ARRAY = ['numtype', 'byteorder', 'shape', 'arrayorder']   # without these the data cannot be interpreted
 NOTJSON = ['', '{', '{"numtype": "int32", ', 'not json at all', '\x00\x01\x02', "{'numtype': 'int32'}", '{"a": 1} trailing']
